@@ -506,6 +506,10 @@ func runC12(c *core.Ctx) error {
 	if err := runC12Trace(c); err != nil {
 		return err
 	}
+	// call histories (SchemaApi_jdoc.cfg): results do not depend on earlier calls, returned values stay intact
+	if err := runObjHistories(c, objKinds["jdoc"], objPairs([]string{"", " ", "\n\t \r\n", "1", "12.5 ", "[1, 2]", "{\"a\": [true, null]}", "tru", "[1, 2", "\"s\"", "\x00trailing:", "\x00trailing:   ", "\x00trailing:42\n\nrest", "\x00trailing:{\"a\": 1} x", "\x00trailing:x"}, c.Pick(15, 60), c.Seed)); err != nil {
+		return err
+	}
 	c.Set("rule", "class strings from the TLC-dumped JsonDoc automaton (nesting <= 3), plain and trailing option: all strings <= N, W-method suite access.Sigma^{<=k+1}.W, seeded random walks with random member bytes; every case runs Check, the NextLexeme stream, Len and the tree rebuild. distinct_nontrivial = distinct (model state, byte class) edges crossed")
 	c.Set("N", c.Pick(4, 5))
 	c.Set("k", c.Pick(0, 1))
@@ -517,6 +521,9 @@ func runC12(c *core.Ctx) error {
 func init() {
 	register(&core.Check{ID: "C12", Level: "model_checking", Run: runC12,
 		Replay: func(c *core.Ctx, raw json.RawMessage) ([]core.Finding, error) {
+			if fs, ok := objReplayCase(raw); ok {
+				return fs, nil
+			}
 			var probe struct {
 				Src string `json:"src"`
 			}
